@@ -435,6 +435,17 @@ var (
 	srvErr  error
 )
 
+var stuckOnce sync.Once
+
+// dumpStuck saves the goroutine dump of the first stuck workload next to the evidence.
+func dumpStuck() {
+	stuckOnce.Do(func() {
+		buf := make([]byte, 8<<20)
+		n := runtime.Stack(buf, true)
+		os.WriteFile(filepath.Join(os.Getenv("VERIF_OUT"), fmt.Sprintf("C24-stuck-%d.txt", os.Getpid())), buf[:n], 0o644)
+	})
+}
+
 var bigCell = make([]byte, 2<<20)
 
 // backendHandler scripts the three statements of the backend layer.
@@ -564,6 +575,7 @@ func runBackendRound(c concCase, st *concState) {
 	}()
 	close(start)
 	if !joinOrTimeout(&wg, 90*time.Second) {
+		dumpStuck()
 		st.fail("stuck", "clients did not finish within 90 s")
 		return
 	}
@@ -590,9 +602,9 @@ func runBackendRound(c concCase, st *concState) {
 }
 
 func TestC24ConcBackend(t *testing.T) {
-	q, th := 120, 1500
+	q, th := 120, 400
 	if os.Getenv("VERIF_RACE") != "" {
-		q, th = 60, 300
+		q, th = 60, 100
 	}
 	pbt.Run(t, pbt.Spec{ID: "C24", Sub: "conc_backend", Quick: q, Thorough: th,
 		Rule:  "backend.ConnectionPool (connectionPoolImpl, pooledConnectImpl.Recycle) over a loopback MySQL simulator, capacity<=max<=4, idle timeout 1 h or 2 ms (real sweep timer); 2-6 client goroutines with 1-8 operations each (Get with timeout, optional query, Recycle; Recycle of a connection that the client closed, that has unread rows of a >16 MiB result (0-2 per workload), that met a packet error because the server dropped the socket, or that got an error packet among the rows), controller goroutine that in mode grow raises the capacity and in mode close closes the pool while clients run. non-trivial as in conc_pool",
